@@ -4,9 +4,10 @@
 -/
 import Kvass.Pins.Coord
 import Kvass.Proofs.CoordLog
+import Kvass.Proofs.CoordFit
 
 namespace Kvass.Props.C04
-open Kvass Kvass.Coord
+open Kvass Kvass.Coord Kvass.Spec
 
 /-- Every placement of a cycle (first assignment, process relief, head relief, scale-down move)
     is made only where the destination's running load plus the target stays strictly below the
@@ -31,5 +32,49 @@ def exSwr : Swr := fun x r => x * r / 10
 example : ((cycle exSwr { allevHead := [[1, 2], []], assign := [3] } exInput).log.map (·.kind)) = [2, 0] := by
   decide
 
+/-- **Observable form, clause 1.**  For every shard that is sent an update: the load it reported
+    plus, for every target newly given to it, the smallest size any other in-sync shard reports for
+    that target (the explorer's estimate when nobody does) stays strictly below the head-series limit
+    (when set) and the process-series limit.  Every schedule, every `seriesWithRate`, every input
+    without negative sizes. -/
+theorem C04_fits (swr : Swr) (sc : Sched) (inp : Input) (hok : C04.sizesOK inp = true) :
+    C04.fits inp (Obs.ofOutcome (cycle swr sc inp)) = true :=
+  fits_cycle swr sc inp (sizesOK_sound inp hok)
+
+/-- **Clause 2.**  A discovered target that nobody scrapes and that alone exceeds a limit is never
+    handed to a shard. -/
+theorem C04_noTooBig (swr : Swr) (sc : Sched) (inp : Input) (hok : C04.sizesOK inp = true) :
+    C04.noTooBig inp (Obs.ofOutcome (cycle swr sc inp)) = true :=
+  noTooBig_cycle swr sc inp (sizesOK_sound inp hok)
+
+/-- **Clause 3.**  With relief disabled, when every unscraped healthy target alone exceeds a limit,
+    no `ChangeScale` asks for more shards than exist (or than the configured minimum). -/
+theorem C04_noScaleUpForTooBig (swr : Swr) (sc : Sched) (inp : Input) :
+    C04.noScaleUpForTooBig inp (Obs.ofOutcome (cycle swr sc inp)) = true :=
+  noScaleUp_cycle swr sc inp
+
+/-- **C04**: the predicate the engine monitors on the real coordinator holds of every outcome of
+    the model, for every schedule. -/
+theorem C04_ok (swr : Swr) (sc : Sched) (inp : Input) (hok : C04.sizesOK inp = true) :
+    C04.ok inp (Obs.ofOutcome (cycle swr sc inp)) = true :=
+  ok_cycle swr sc inp hok
+
+/-- non-vacuity: the example input meets the hypothesis, and its outcome really hands new targets
+    to shards (so `fits` has something to say) -/
+example : C04.sizesOK exInput = true := by decide
+
+example :
+    ((shardsOf exInput (Obs.ofOutcome (cycle exSwr { allevHead := [[1, 2], []], assign := [3] } exInput))).map
+      fun (_, p, r) => match postedBody r with | some b => (C04.newOn p b).length | none => 0) = [0, 2] := by
+  decide
+
+/-- a target that alone exceeds the limit: discovered, unscraped, never assigned, no scale-up -/
+def exBig : Input :=
+  { opt := ⟨12, 100, 5, 0, false, true⟩, active := [7], explore := [(7, ⟨.good, 50, 50, .normal, 0⟩)],
+    probes := [{ ready := true, status := some [], rt1 := some (⟨0, 0, .fresh⟩, true), pushOk := true, rt2 := none,
+                 postOk := true }] }
+
+example : C04.onlyTooBigUnscraped exBig = true ∧ exBig.opt.disableAlleviate = true := by decide
+example : (cycle exSwr { assign := [7] } exBig).scales = [1] := by decide
 
 end Kvass.Props.C04
